@@ -4,9 +4,12 @@ import sys, os
 HERE = os.path.dirname(os.path.abspath(__file__)); sys.path.insert(0, HERE)
 import vbuild
 from props import PROPS
+import manifest_texts
 tiers = ("quick", "thorough") if "--all" in sys.argv else ("quick",)
 seen = set(); bad = 0
 for pid, P in PROPS.items():
+    if pid not in manifest_texts.CLAIMED and "--all-plans" not in sys.argv:
+        continue
     for t in tiers:
         for leg in P["tiers"][t]:
             if "harness" not in leg or leg.get("no_warm"):
